@@ -42,7 +42,7 @@ class Sim:
         self.close()
 
     def server(self, tun=None, domain=None, password=None, extra=(), name="srv", ips=(SERVER_IP, SERVER_IP6), password_on_stdin=False,
-               stdin_closed=False):
+               stdin_closed=False, residue=None):
         if tun:
             self.tun_net = tun
         if domain:
@@ -60,7 +60,7 @@ class Sim:
         argv += [self.tun_net, self.domain]
         if self.fdmode:
             env = dict(env, SIMNET_FDMODE=self.fdmode)
-        return self.k.spawn(name, "server", argv, list(ips), env=env, san_env=self.env, stdin_data=stdin_data, stdin_closed=stdin_closed)
+        return self.k.spawn(name, "server", argv, list(ips), env=env, san_env=self.env, stdin_data=stdin_data, stdin_closed=stdin_closed, residue=residue)
 
     def client(self, name, ip, nameserver, opts=(), password=None, domain=None):
         pw = self.password if password is None else password
